@@ -37,6 +37,8 @@ func SingleOps(cfg *world.Config, persist bool, extra ...world.Op) []world.Op {
 	if persist && !cfg.InMemory {
 		ops = append(ops, world.Op{Kind: world.OpPersist}, world.Op{Kind: world.OpReload})
 	}
+	// continue on a clone of the tree (the original is dropped)
+	ops = append(ops, world.Op{Kind: world.OpClone, A: 0, B: 0})
 	if cfg.Cache != "none" && cfg.Cache != "" && !cfg.InMemory {
 		// with a cache attached, reads populate it: they are transitions
 		ops = append(ops, world.Op{Kind: world.OpIter})
